@@ -84,12 +84,21 @@ def c05(tier, seed, t0):
                      extra=dict(props=["C05"], sample_rate=0.05 if tier == "quick" else 0.02))
     agg1 = R.merge(res)
     agg2, HE = edits("C05", tier, seed, 150 if tier == "quick" else 3000)
-    agg = merge2(agg1, agg2)
+    from harness import depth as HD
+    res3 = R.run_pool(HD.HNAME, HD.chunks(tier), 120 if tier == "quick" else 600, seed, tier, extra=dict(chunk_time=100), shuffle=False)
+    agg3 = R.merge(res3)
+    agg = merge2(merge2(agg1, agg2), agg3)
     bounds = dict(tokenizer=dict(window_chars=N, alphabet="ASCII 0..127", start="symbolic line/column >= 1",
                                  family_windows="identifiers of 2..20 characters + delimiter; block comments with 3..4/6 body characters",
                                  claim="one get_next_token() step returns and raises nothing; induction L2"),
-                  pipeline=EDIT_BOUNDS, per_path_alarm_s="5 (lexer) / 8 (pipeline)")
-    return report_multi("C05", {HL.HNAME: agg1, HE.HNAME: agg2}, agg, tier, seed, t0, bounds, LEX_FUNCS + PIPE_FUNCS,
+                  pipeline=EDIT_BOUNDS, per_path_alarm_s="5 (lexer) / 8 (pipeline)",
+                  unbounded_repetition=dict(constructs=sorted(HD.TEMPLATES), sizes_instrumented=list(HD.DS), sizes_native=list(HD.BIG),
+                                            smaller_native_sizes=HD.BIG_OF,
+                                            claim="call depth of the /repo frames measured at the instrumented sizes; a construct whose depth "
+                                                  "grows with every repetition is a candidate, decided by the native run at the large sizes "
+                                                  "(RecursionError / other exception = violation); every construct is run at the large sizes",
+                                            symbolic="the repeated unmatched character (class %r)" % HD.UNMATCHED))
+    return report_multi("C05", {HL.HNAME: agg1, HE.HNAME: agg2, HD.HNAME: agg3}, agg, tier, seed, t0, bounds, LEX_FUNCS + PIPE_FUNCS,
                         ["lexer locality L1", "a path that hits the per-path alarm is replayed natively; only a reproducing hang is reported",
                          "CParsingError is the controlled fatal error (allowed outcome)"])
 
